@@ -2,6 +2,7 @@
 // Reached from libnstd + harness objects through symbol redirection; descriptors it did not create pass through to the kernel.
 // Compiled WITHOUT instrumentation.
 #include "net_internal.hpp"
+#include <signal.h>
 namespace simfs { bool active(); bool isFileFd(int fd); ssize_t fsWrite(int fd, const void* b, size_t n); ssize_t fsRead(int fd, void* b, size_t n); int fsClose(int fd); }
 #include <sys/socket.h>
 #include <sys/epoll.h>
@@ -300,7 +301,12 @@ int __wrap_accept4(int fd, struct sockaddr* addr, socklen_t* len, int flags) {
 int __wrap_accept(int fd, struct sockaddr* addr, socklen_t* len) { return __wrap_accept4(fd, addr, len, 0); }
 ssize_t __wrap_send(int fd, const void* buf, size_t n, int flags) {
   File* f = inTask() ? lookup(fd) : 0; if (!f) return send(fd, buf, n, flags);
-  HostG h; return fileWrite(fd, f, buf, n);
+  HostG h; ssize_t r = fileWrite(fd, f, buf, n);
+  if (r < 0 && errno == EPIPE && !(flags & MSG_NOSIGNAL)) {   /* the kernel also raises SIGPIPE; unless the program handles or ignores it, that ends the process */
+    struct sigaction sa; if (sigaction(SIGPIPE, 0, &sa) == 0 && sa.sa_handler == SIG_DFL) fail("stub/killed_by_SIGPIPE", "send() without MSG_NOSIGNAL on a connection whose peer is gone while SIGPIPE has its default action: the process is terminated");
+    errno = EPIPE;
+  }
+  return r;
 }
 ssize_t __wrap_recv(int fd, void* buf, size_t n, int flags) {
   File* f = inTask() ? lookup(fd) : 0; if (!f) return recv(fd, buf, n, flags);
